@@ -10,7 +10,7 @@
 #include <unordered_set>
 
 using namespace vf;
-namespace vf { void dbgFault(const Case &cs, long k); }
+namespace vf { void dbgFault(const Case &cs, long k); void dbgPerf(const Case &cs); }
 
 extern "C" const char *__asan_default_options() { return "detect_leaks=0:allocator_may_return_null=1:handle_abort=1:abort_on_error=0:symbolize=1"; }
 extern "C" const char *__ubsan_default_options() { return "print_stacktrace=1"; }
@@ -96,6 +96,14 @@ int main(int argc, char **argv) {
     Case cs;
     if (!parseCase(ss.str(), cs)) return 2;
     dbgFault(cs, atol(argv[3]));
+    return 0;
+  }
+  if (cmd == "dbgperf") {
+    std::ifstream f(argv[2]);
+    std::stringstream ss; ss << f.rdbuf();
+    Case cs;
+    if (!parseCase(ss.str(), cs)) return 2;
+    dbgPerf(cs);
     return 0;
   }
   if (cmd == "rules") {
